@@ -12,7 +12,7 @@ def build(tier, seed):
     # measured: 2x3 240 s, 3x3 390 s, 2x4 590 s, 3x4 520 s (symbolic pivot row/column make every ndarray
     # slice symbolic); the quick tier stops at 3x4
     shapes = [(1, 1), (1, 3), (2, 2), (2, 3), (2, 4), (3, 3), (3, 4)] if tier == "quick" else \
-             [(1, 1), (1, 2), (1, 3), (2, 2), (2, 3), (2, 4), (2, 5), (3, 3), (3, 4), (3, 5), (4, 4), (4, 5)]
+             [(1, 1), (1, 2), (1, 3), (1, 4), (2, 2), (2, 3), (2, 4), (2, 5), (3, 3), (3, 4), (3, 5)]
     items = []
     for r, n in shapes:
         hn = "c09_echelon_%dx%d" % (r, n)
